@@ -2,4 +2,6 @@ package verifh
 
 func init() {
 	register(propC10{})
+	register(propC11{})
+	register(propC12{})
 }
